@@ -394,6 +394,8 @@ func runC12(r *Run) {
 
 	// the handler runs after the agent lock is released: a handler that starts a follow-up transaction must not block delivery (shared with C13)
 	r.Borrow("C13", map[string]string{"C13.order": "C12.order"})
+	// the callback of Do runs inside the event handler, while the reader's reused Message still holds this datagram; Start removes/stops only the transaction it registered (shared with C10)
+	r.Borrow("C10", map[string]string{"C10.do": "C12.do", "C10.rollback": "C12.rollback"})
 }
 
 // structArgKey: key of field `name` of a struct-typed call argument (a load of a local alloc, or a parameter/value struct).
